@@ -1468,7 +1468,6 @@ Section Sound.
       + (* all *)
         assert (Hbsz : (csize body < n)%nat)
           by exact (lt_chain _ _ _ _ (proj2 (csize_call2 FAnd (EIdent accu_var) body)) (proj2 (csize_compr _ _ _ _ _ _ _)) Hsz).
-        destruct (mentions accu_var body); [discriminate|].
         destruct (cty (bind_var G iter_var te) body) as [tb|] eqn:Etb; [|discriminate]. destruct tb; try discriminate. inv Hty.
         cbn [tr tr_const obind] in Htr.
         repeat match goal with H : bytes_eqb accu_var _ = false |- _ => rewrite H in Htr end. cbn [obind] in Htr.
@@ -1483,7 +1482,6 @@ Section Sound.
       + (* exists *)
         assert (Hbsz : (csize body < n)%nat)
           by exact (lt_chain _ _ _ _ (proj2 (csize_call2 FOr (EIdent accu_var) body)) (proj2 (csize_compr _ _ _ _ _ _ _)) Hsz).
-        destruct (mentions accu_var body); [discriminate|].
         destruct (cty (bind_var G iter_var te) body) as [tb|] eqn:Etb; [|discriminate]. destruct tb; try discriminate. inv Hty.
         cbn [tr tr_const obind] in Htr.
         repeat match goal with H : bytes_eqb accu_var _ = false |- _ => rewrite H in Htr end. cbn [obind] in Htr.
@@ -1498,7 +1496,6 @@ Section Sound.
       + (* exists_one *)
         assert (Hbsz : (csize body < n)%nat)
           by exact (lt_chain _ _ _ _ (csize_call3 FTernary body _ _) (proj2 (csize_compr _ _ _ _ _ _ _)) Hsz).
-        destruct (mentions accu_var body); [discriminate|].
         destruct (cty (bind_var G iter_var te) body) as [tb|] eqn:Etb; [|discriminate]. destruct tb; try discriminate. inv Hty.
         cbn [tr tr_const obind bin_of] in Htr.
         repeat match goal with H : bytes_eqb accu_var _ = false |- _ => rewrite H in Htr end. cbn [obind omap] in Htr.
@@ -1515,7 +1512,6 @@ Section Sound.
       + (* filter *)
         assert (Hbsz : (csize body < n)%nat)
           by exact (lt_chain _ _ _ _ (csize_call3 FTernary body _ _) (proj2 (csize_compr _ _ _ _ _ _ _)) Hsz).
-        destruct (mentions accu_var body); [discriminate|].
         destruct (cty (bind_var G iter_var te) body) as [tb|] eqn:Etb; [|discriminate]. destruct tb; try discriminate. inv Hty.
         cbn [tr tr_const obind bin_of] in Htr.
         repeat match goal with H : bytes_eqb accu_var _ = false |- _ => rewrite H in Htr end.
@@ -1541,7 +1537,6 @@ Section Sound.
         assert (Hbsz : (csize body < n)%nat)
           by exact (lt_chain4 _ _ _ _ _ (csize_list1 body) (proj2 (csize_call2 FAdd (EIdent accu_var) (EList [body]))) (proj2 (csize_compr _ _ _ _ _ _ _)) Hsz).
         apply andb_true_iff in Hsb as [Hsb Hnt].
-        destruct (mentions accu_var body); [discriminate|].
         destruct (cty (bind_var G iter_var te) body) as [tb|] eqn:Etb; [|discriminate].
         assert (Hbox : boxable tb = true /\ t = SIfaces).
         { destruct tb; try discriminate; try (inv Hty; split; reflexivity).
